@@ -309,6 +309,157 @@ def answerXMark (a b : Bytes) (ops : List String) : String :=
     let h := ops.foldl (histOp b) { r := r, markers := collectMarkers a, outs := #[], stopped := false }
     String.intercalate " " h.outs.toList
 
+/-! ### the allocation-free API (C20): status tokens only -/
+
+def statusOf {α} (r : Res α) : String × Bool :=
+  match r with
+  | .ok _ => ("ok", false)
+  | .err e => ("E:" ++ showErr e, false)
+  | .panic _ => ("P", true)
+  | .ub => ("UB", true)
+
+structure NaHist where
+  r : Reader
+  markers : Array Marker := #[]
+  refs : Array Cur := #[]
+  pending : Option Marker := none
+  outs : Array String := #[]
+  stopped : Bool := false
+
+def naOp (msg : Bytes) (h : NaHist) (op : String) : NaHist :=
+  if h.stopped then h else
+  let parts := op.splitOn ":"
+  let head := parts.headD ""
+  let isG2 := head == "sk" || head == "db" || head == "dt" || head == "op"
+  let last : Option Marker := if isG2 then h.pending else none
+  let h : NaHist := if isG2 || ["mk", "hr", "hi", "hh", "seek", "hd", "q", "qr", "sq"].contains head
+    then { h with pending := none } else h
+  let full := h.markers.size ≥ 250 || h.refs.size ≥ 250
+  let emit (h : NaHist) (st : String × Bool) (r : Reader) : NaHist :=
+    { h with outs := h.outs.push st.1, stopped := st.2, r := r }
+  let marker (i : String) : Option Marker := i.toNat? >>= (h.markers[·]?)
+  match parts with
+  | ["hd"] => let (o, r) := h.r.header msg; emit h (statusOf o) r
+  | ["q"] => let (o, r) := h.r.question msg .question; emit h (statusOf o) r
+  | ["qr"] => let (o, r) := h.r.question msg .questionRef; emit h (statusOf o) r
+  | ["sq"] => let (o, r) := h.r.skipQuestions msg; emit h (statusOf o) r
+  | [g1] =>
+    if g1 == "mk" || g1 == "hr" || g1 == "hi" || g1 == "hh" then
+      if full then emit h ("badop", false) h.r else
+      let k : HKind := if g1 == "mk" then .marker else if g1 == "hr" then .ref else if g1 == "hi" then .owned .inline else .owned .heap
+      let (o, r) := h.r.recordHeader msg k
+      let h' := match o with
+        | .ok (hn, m) =>
+          let h1 := { h with markers := h.markers.push m, pending := some m }
+          match hn with
+          | .ref c => { h1 with refs := h1.refs.push c }
+          | _ => h1
+        | _ => h
+      let st := statusOf o
+      let st := if g1 == "hh" then (st.1 ++ (if st.1 == "ok" then ":ctl:1" else ":ctl:0"), st.2) else st
+      emit h' st r
+    else if g1 == "sk" then
+      match last with
+      | some m => let (o, r) := h.r.skipData m; emit h (statusOf o) r
+      | none => emit h ("nomarker", false) h.r
+    else if g1 == "db" then
+      match last with
+      | some m => let (o, r) := h.r.dataBytes msg m; emit h (statusOf o) r
+      | none => emit h ("nomarker", false) h.r
+    else if g1 == "op" then
+      match last with
+      | some m => if m.rtype != 41 then emit h ("notopt", false) h.r else
+          let (o, r) := h.r.optRecord m; emit h (statusOf o) r
+      | none => emit h ("nomarker", false) h.r
+    else if g1 == "cq" then
+      match h.r.questionsCount, h.r.recordsCount with
+      | .panic _, _ => emit h ("P", true) h.r
+      | _, .panic _ => emit h ("P", true) h.r
+      | _, _ => emit h ("ok", false) h.r
+    else emit h ("badop", false) h.r
+  | ["dt", ty] =>
+    match rtypeOfString ty, last with
+    | some t, some m => let (o, r) := h.r.data msg t m; emit h (statusOf o) r
+    | _, _ => emit h ("nomarker", false) h.r
+  | ["seek", s] =>
+    match sectionOfString s with
+    | some sec => let (o, r) := h.r.seek msg sec; emit h (statusOf o) r
+    | none => emit h ("badop", false) h.r
+  | ["cs", s] =>
+    match sectionOfString s with
+    | some sec => emit h (match h.r.recordsCountIn sec with | .panic _ => ("P", true) | _ => ("ok", false)) h.r
+    | none => emit h ("badop", false) h.r
+  | ["dba", i] =>
+    match marker i with
+    | some m => emit h (statusOf (h.r.dataBytesAt msg m)) h.r
+    | none => emit h ("nomarker", false) h.r
+  | ["dta", i, ty] =>
+    match marker i, rtypeOfString ty with
+    | some m, some t => emit h (statusOf (h.r.dataAt msg t m)) h.r
+    | _, _ => emit h ("nomarker", false) h.r
+  | ["nra", i] =>
+    match marker i with
+    | some m =>
+      let st : String × Bool := match Labels.drain msg (Labels.new (h.r.nameRefAt m)) [] with
+        | .ok (.ok _) => ("ok", false)
+        | .ok (.error e) => ("E:" ++ showErr e, false)
+        | .err e => ("E:" ++ showErr e, false)
+        | .panic _ => ("P", true)
+        | .ub => ("UB", true)
+      emit h st h.r
+    | none => emit h ("nomarker", false) h.r
+  | ["neq", i, j] =>
+    match i.toNat? >>= (h.refs[·]?), j.toNat? >>= (h.refs[·]?) with
+    | some a, some b =>
+      -- `a.eq(b)` then `b.ne(a)`: the first error wins
+      let st : String × Bool := match nameRefEq msg msg a b with
+        | .ok (.ok v) =>
+          match nameRefEq msg msg b a with
+          | .ok (.ok _) => (s!"ok:{v}", false)
+          | .ok (.error e) => ("E:" ++ showErr e, false)
+          | .err e => ("E:" ++ showErr e, false)
+          | .panic _ => ("P", true)
+          | .ub => ("UB", true)
+        | .ok (.error e) => ("E:" ++ showErr e, false)
+        | .err e => ("E:" ++ showErr e, false)
+        | .panic _ => ("P", true)
+        | .ub => ("UB", true)
+      emit h st h.r
+    | _, _ => emit h ("nomarker", false) h.r
+  | _ => emit h ("badop", false) h.r
+
+/-- `noalloc <hex> <op>…` -/
+def answerNoAlloc (msg : Bytes) (ops : List String) : String :=
+  match Reader.new msg with
+  | .err e => "err " ++ showErr e
+  | .panic k => showPanic k
+  | .ub => "ub"
+  | .ok r =>
+    let h := ops.foldl (naOp msg) { r := r }
+    String.intercalate " " h.outs.toList
+
+/-- `noalloci <hex>` -/
+def answerNoAllocIter (msg : Bytes) : String :=
+  match MsgIter.new msg with
+  | .err e => "err " ++ showErr e
+  | .panic k => showPanic k
+  | .ub => "ub"
+  | .ok mi =>
+    let q := (statusOf (mi.question msg)).1
+    let qs : String := match mi.questions msg with
+      | .ok l => s!"qs:{(l.filter (fun x => match x with | .ok _ => true | _ => false)).length}:{(l.filter (fun x => match x with | .ok _ => false | _ => true)).length}"
+      | _ => "P"
+    let recs : List String := match mi.records msg with
+      | .ok l =>
+        let rec go (l : List (Except Err Record)) (seen : Nat) : List String :=
+          match l with
+          | [] => [s!"recs:{seen}"]
+          | .ok r :: rest => if r.rtype != 1 && r.rtype != 28 then [s!"stop:{r.rtype}", s!"recs:{seen}"] else go rest (seen + 1)
+          | .error e :: _ => ["E:" ++ showErr e, s!"recs:{seen}"]
+        go l 0
+      | _ => ["P"]
+    String.intercalate " " (["new", q, qs] ++ recs)
+
 /-! ### iterator API, record sets, NameRef::eq -/
 
 def showRecord (r : Record) : String :=
@@ -533,6 +684,14 @@ def answer (line : String) : String :=
     | some a, some b => answerXMark a b ops
     | _, _ => "bad-request"
   | "client" :: rest => answerClient rest
+  | "noalloc" :: hex :: ops =>
+    match parseHex hex with
+    | some msg => answerNoAlloc msg ops
+    | none => "bad-request"
+  | ["noalloci", hex] =>
+    match parseHex hex with
+    | some msg => answerNoAllocIter msg
+    | none => "bad-request"
   | ["iter", hex] =>
     match parseHex hex with
     | some msg => answerIter msg
